@@ -23,7 +23,7 @@ META = {
     "assumptions": ["pure-Python predicate evaluator over exact field values is the reference", "datetime thresholds parsed by an independent integer-arithmetic parser"],
     "deciding": ["post:filter", "post:filter_spatial", "history:order/grouping/idempotence"],
 }
-META["added"] = 'Added: histories that leave filters set on the source, origin_time thresholds between two integer milliseconds, zero-valued attributes and thresholds, catalogs already bound to another region (constructor or earlier filter_spatial) before filter_spatial(region). events on the exclusive outer east / north edge with no event beyond the box. empty statement lists. NaN attributes. copy-then-original filter histories.'
+META["added"] = 'Added: threshold instants at arbitrary millisecond phases that a seconds*1000 float product does not reproduce. histories that leave filters set on the source, origin_time thresholds between two integer milliseconds, zero-valued attributes and thresholds, catalogs already bound to another region (constructor or earlier filter_spatial) before filter_spatial(region). events on the exclusive outer east / north edge with no event beyond the box. empty statement lists. NaN attributes. copy-then-original filter histories.'
 MANIFEST = {
     "technique": "runtime post-conditions with OLD snapshots on the real filter / filter_spatial (sub-sequence, bit-identical rows, source untouched when in_place=False, no shared memory) + pure-Python predicate reference + sequential history checker over permutations, groupings, re-application and mixed in_place histories",
     "level_text": "Every call of filter/filter_spatial in the workload is checked against OLD state (kept rows are a bit-identical sub-sequence; source untouched and unshared with in_place=False); kept ids are compared with a pure-Python predicate evaluator; for each case all permutations and all sequential groupings of up to 4 statements, re-application and in_place variants must give the same catalog; datetime statements must equal the origin-time statement of the same instant.",
@@ -115,6 +115,14 @@ def ref_keep(rows, statements):
 def gen_catalog(r, n):
     pool_t = sorted(int(x) for x in r.integers(-2000000000000, 4000000000000, 6))
     pool_t = [t - t % 1000 + int(r.choice([0, 1, 500, 999])) for t in pool_t]
+    if r.uniform() < 0.5:
+        # an instant at an arbitrary millisecond phase whose value is NOT reproduced by (t / 1000) * 1000 in double precision (about 1 in 80 is
+        # not): an integer-millisecond threshold must be compared as that integer
+        while True:
+            t_ = int(r.integers(-2000000000000, 4000000000000))
+            if (t_ / 1000.0) * 1000.0 != float(t_):
+                break
+        pool_t[int(r.integers(0, 6))] = t_
     if r.uniform() < 0.3:
         pool_t[int(r.integers(0, 6))] = 0          # the epoch instant itself; zero is a legitimate value for every field
     pools = {"lat": numpy.append(numpy.round(r.uniform(-60, 60, 4), 1), 0.0), "lon": numpy.append(numpy.round(r.uniform(-170, 170, 4), 1), 0.0),
